@@ -270,14 +270,12 @@ func checkInvariants(c resolve.Client, reg *Registry, order [][2]string) ([]find
 			if err != nil {
 				add("bundle:Requirements:error", "%s: Requirements(%s) fails: %v", who, vkStr(conc), err)
 			} else {
-				before := len(out)
 				checkRequirements(who, rs, modelReqs(u, mv.Reqs), func(class, f string, a ...any) {
 					if class == "bundle:parent-requirement" {
 						class = "bundle:nested-requirement"
 					}
 					add(class, f, a...)
 				})
-				_ = before
 			}
 			// The package has that one version only: asking for another one finds nothing.
 			other := npmVK(m, otherVersion, resolve.Concrete)
